@@ -28,7 +28,7 @@ EXTENDS Integers, Sequences, FiniteSets, TLC, Json
 CONSTANTS Nums,        \* requested block numbers (every block tag is always included)
           Latests,     \* latest block values (0 = unknown)
           Rules,       \* archive rule distances (positive)
-          Methods,     \* {"eth_call", "eth_getBalance"}
+          Methods,     \* {"eth_call", "eth_getBalance"} (ETH1 JSON-RPC) and/or CosmosMethods (LAV1)
           Guard        \* TRUE: eth_call clause guarded against underflow
 
 NA        == -1
@@ -94,7 +94,11 @@ CodeArchive(req, latest, rule, method) ==
 VARIABLES req, latest, rule, method
 vars == <<req, latest, rule, method>>
 
+\* methods of the cosmos interfaces (LAV1 spec: REST blocks/{height}, Tendermint RPC block, gRPC GetBlockByHeight):
+\* they always carry a height (or default to latest), "no block" cannot be expressed
+CosmosMethods == {"rest_block", "tm_block", "grpc_block"}
 Init == /\ req \in Requested /\ latest \in Latests /\ rule \in Rules /\ method \in Methods
+        /\ method \in CosmosMethods => req # NA
 Next == UNCHANGED vars
 
 TypeOK == /\ \A r \in Requested : r \in Tags \/ (r >= 0 /\ r < W \div 4)
